@@ -861,4 +861,11 @@ class SecureHomeKitConnection(HomeKitConnection):
         logger.debug("Secure connection to %s:%s established", self.connected_host, self.port)
 
         if self.owner:
-            await self.owner.connection_made(True)
+            try:
+                await self.owner.connection_made(True)
+            except BaseException:
+                # Finishing the setup (for example re-subscribing) failed. Close
+                # the connection so it is not leaked when the next attempt
+                # replaces the transport.
+                self._drop_transport()
+                raise
